@@ -7,5 +7,7 @@ CONSTANTS
   RelLens = FALSE
   MaxWrites = 4
   WriterFollowsOwnSCS = TRUE
+  HsOrder = "serial"
+  HsReadExact = TRUE
 INVARIANTS NoDesync Emit
 CHECK_DEADLOCK FALSE
